@@ -255,12 +255,22 @@ func (s *AdminOp) ProcessAdminOP(cmd *agtypes.AdminOPCmd, app AdminApp) error {
 func (s *AdminOp) CheckMajor23(cmd *agtypes.AdminOPCmd) bool {
 	msg := cmd.Msg
 	var major23 int64
+	counted := make(map[string]struct{}) // every validator counts once, however often it is listed
 	for _, sig := range cmd.SInfos {
+		if len(sig.PubKey) != crypto.PubKeyLenEd25519 || len(sig.Signature) != crypto.SignKeyLenEd25519 {
+			log.Warn("check major 2/3: malformed signature entry")
+			continue
+		}
 		sigPubKey := crypto.SetNodePubkey(sig.PubKey)
-		_, validator := (*s.validators).GetByAddress(sigPubKey.Address())
+		address := sigPubKey.Address()
+		if _, dup := counted[string(address)]; dup {
+			continue
+		}
+		_, validator := (*s.validators).GetByAddress(address)
 		if validator != nil && validator.VotingPower > 0 {
 			sig64 := crypto.SetNodeSignature(sig.Signature)
 			if sigPubKey.VerifyBytes(msg, sig64) {
+				counted[string(address)] = struct{}{}
 				major23 += validator.VotingPower
 			} else {
 				log.Info("check major 2/3", zap.String("vote nil", fmt.Sprintf("sig=%X;pubkey=%X", sig.Signature, sigPubKey.KeyString())))
@@ -269,7 +279,7 @@ func (s *AdminOp) CheckMajor23(cmd *agtypes.AdminOPCmd) bool {
 			log.Warn(fmt.Sprintf("node(%s) is not validator", sigPubKey.KeyString()))
 		}
 	}
-	return major23 > (*s.validators).TotalVotingPower()*2/3
+	return major23 > agtypes.TwoThirds((*s.validators).TotalVotingPower())
 }
 
 func (s *AdminOp) ParseValidator(cmd *agtypes.AdminOPCmd) (*agtypes.ValidatorAttr, error) {
